@@ -57,14 +57,19 @@ class FakeTxTransport:
             self.close_requested = "lose"
             self.close_time = self.drv.now()
             self.disconnecting = True
+            if getattr(self, "on_close_requested", None):
+                self.on_close_requested("lose")
 
     def abortConnection(self):
         self.calls.append(("abortConnection",))
         if self.close_requested != "abort":
+            first = not self.close_requested
             if not self.close_requested:
                 self.close_time = self.drv.now()
             self.close_requested = "abort"
             self.disconnecting = True
+            if first and getattr(self, "on_close_requested", None):
+                self.on_close_requested("abort")
 
     def getPeer(self):
         return self._peer
@@ -148,13 +153,18 @@ class FakeAioTransport:
         if not self.close_requested:
             self.close_requested = "lose"
             self.close_time = self.drv.now()
+            if getattr(self, "on_close_requested", None):
+                self.on_close_requested("lose")
 
     def abort(self):
         self.calls.append(("abort",))
         if self.close_requested != "abort":
+            first = not self.close_requested
             if not self.close_requested:
                 self.close_time = self.drv.now()
             self.close_requested = "abort"
+            if first and getattr(self, "on_close_requested", None):
+                self.on_close_requested("abort")
 
     def set_protocol(self, p):
         self._proto = p
@@ -210,6 +220,20 @@ class Endpoint:
     def drop_requested(self):
         return self.t.close_requested
 
+    def enable_auto_loss(self):
+        """behave like the real frameworks: once the protocol asks for the transport to be closed / aborted, the loss is delivered by the
+        event loop on its next turn (Twisted: callLater(0); asyncio: call_soon) - i.e. before any timer that is still pending"""
+        def on_close(kind):
+            def go():
+                try:
+                    self.deliver_loss("aborted" if kind == "abort" else "done")
+                except _core.Violation:
+                    raise
+                except Exception as e:     # an exception out of connectionLost / connection_lost reaches the framework
+                    self.escaped.append(e)
+            self.drv.soon(go)
+        self.t.on_close_requested = on_close
+
     def deliver_loss(self, kind="done"):
         """deliver connectionLost / connection_lost exactly once"""
         if self.loss_delivered:
@@ -261,6 +285,9 @@ class TxDriver:
 
     def call(self, fn, *a, **kw):
         return fn(*a, **kw)
+
+    def soon(self, fn):
+        self.clock.callLater(0, fn)
 
     def connect(self, factory, peer=("127.0.0.1", 54321), host=("127.0.0.1", 9000), proto=None):
         from twisted.internet.address import IPv4Address
@@ -381,6 +408,9 @@ class AioDriver:
         lp._vtime = max(lp._vtime, target)
         self.settle()
 
+    def soon(self, fn):
+        self.loop.call_soon(fn)
+
     def call(self, fn, *a, **kw):
         box = {}
 
@@ -424,7 +454,10 @@ class AioDriver:
 
     def _lose(self, ep, kind):
         exc = {"done": None, "lost": ConnectionResetError("lost"), "aborted": None}[kind]
-        self.call(ep.proto.connection_lost, exc)
+        if self.loop.is_running():      # delivered by the loop itself (Endpoint.enable_auto_loss)
+            ep.proto.connection_lost(exc)
+        else:
+            self.call(ep.proto.connection_lost, exc)
 
     def close(self):
         import asyncio
